@@ -295,7 +295,7 @@ func run(c *core.Ctx) {
 	}
 	// seeded hostile strings
 	r := c.Rng("soup")
-	n := c.N(30000, 600000) / c.NShards
+	n := c.N(200000, 2000000) / c.NShards
 	for i := 0; i < n; i++ {
 		var s string
 		switch r.Intn(4) {
